@@ -41,16 +41,16 @@ CHECKS = {
          "Exploration: every enumerated and random tree of the parser's image is printed with Display and parsed back; the result must equal the tree (literals exactly); a sample is also evaluated before/after on random inputs. Non-finite float literals are a known finding, isolated by re-checking with the literal replaced.",
          "Trusts the image generator to stay inside the parser's image (cross-checked by C07's print/parse round trip).",
          "DESIGN.md §4 C16"),
- "C09": ("model-based property testing of ruleset evaluation: exhaustive small rulesets over 11 rule kinds (every subset/position of failing rules) + seeded random rulesets and serde inputs; oracle = reference evaluator per rule and serialize/evaluate equivalence",
-         "Exploration: outcome count, order, carried rule and value (vs the reference evaluator on the rule alone) for every ruleset of 0-4 rules over 11 kinds and for random rulesets; evaluate(&T) vs evaluate_value(&serialize(T)) for generated serde values including failing Serialize impls.",
+ "C09": ("model-based property testing of ruleset evaluation: exhaustive small rulesets over 15 rule kinds (every subset/position of failing rules) + seeded random rulesets and serde inputs; oracle = reference evaluator per rule and serialize/evaluate equivalence",
+         "Exploration: outcome count, order, carried rule and value (vs the reference evaluator on the rule alone) for every ruleset of 0-4 rules over 15 kinds and for random rulesets evaluated on 1-3 inputs by the same instance, built through every builder entry point; evaluate(&T) vs evaluate_value(&serialize(T)) for generated serde values including failing Serialize impls.",
          "Trusts the reference evaluator and the serde data-model generator/model (harness/src/sval.rs).",
          "DESIGN.md §4 C09"),
  "C11": ("stateful model-based property testing over call histories: generated rulesets of probe calls with similar-but-distinct arguments, failure sets and fail-first plans, 1-3 consecutive evaluations; oracle = per-evaluation cache model (invocation counts per key, observed values, failure outcomes)",
-         "Exploration: an exhaustive family over all ordered pairs of 17 equal/similar arguments x function identity x cacheability x failure x rule split, and seeded random call histories; invocation multisets and outcomes are compared with the cache model.",
-         "Invocations are observed through the harness's own probes; NaN and equal-valued decimals of different scale are excluded as arguments by construction.",
+         "Exploration: an exhaustive family over all ordered pairs of 38 equal / similar / colliding arguments x function identity x cacheability x failure x rule split, and seeded random call histories (functions registered through every builder entry point, failures raised as plain and as crate errors); invocation multisets and outcomes are compared with the cache model.",
+         "Invocations are observed through the harness's own probes; for arguments that are == yet distinguishable (0.0/-0.0, d1.0/d1.00, NaN) only the observed values are asserted, not the invocation counts.",
          "DESIGN.md §4 C11"),
  "C12": ("schedule-owning property testing: suspending probes + hand-rolled executor; exhaustive enumeration of poll orders and drop points for a small core, seeded random schedules beyond; metamorphic oracle: any schedule == run-alone baseline",
-         "Exploration: 4 small rulesets x 2 evaluations x all 1024 poll orders of 10 choices x 13 drop points (exhaustive) and seeded random schedules of 1-4 interleaved evaluations with optional abandonment; outcomes, attributed invocations, input immutability, rule identity and post-history evaluation are compared with the sequential baseline.",
+         "Exploration: 4 small rulesets x 2 evaluations x all 1024 poll orders of 10 choices x 13 drop points (exhaustive), histories of 1-400 abandoned evaluations, seeded histories of plain expression evaluations on one thread, and seeded random schedules of 1-4 interleaved evaluations with optional abandonment; outcomes, attributed invocations, input immutability, rule identity and post-history evaluation are compared with the sequential baseline.",
          "Suspension points exist only inside user functions (owned by the harness); failure plans are stateless so a history-independent baseline exists.",
          "DESIGN.md §4 C12"),
  "C13": ("property-based differential testing of the serializer: generated values of all 29 serde data-model kinds through a hand-written Serialize (incl. failing ones); oracles = prescribed faithful image, serde_json::to_value, panic-catching totality",
@@ -70,7 +70,7 @@ CHECKS = {
          "Weak evidence for 'all interleavings' by design; reval holds no shared mutable state. The static half is not a generated-input check (DESIGN.md §7).",
          "DESIGN.md §4 C18"),
  "C19": ("fault-isolating fuzzing by depth: child process per (construct, depth, operation, stack size) on a geometric depth ladder; oracle = exit status (normal vs killed by signal); thresholds relative to recorded known findings",
-         "Exploration: 13 recursive constructs x 8 operations x 2 stack sizes, each ladder climbed to 2^15 (quick) / 2^17 (thorough) or the first crash. Crashes deeper than the recorded safe depth of a listed known finding are reported as KNOWN-FINDING; any other crash is a violation.",
+         "Exploration: 33 recursive constructs x 8 operations x 2 stack sizes, each ladder (with seeded depth jitter) climbed to 2^17 (quick) / 2^18 (thorough) or the first crash. Crashes deeper than the recorded safe depth of a listed known finding are reported as KNOWN-FINDING; any other crash is a violation.",
          "Thresholds depend on the harness's release profile and the two pinned stack sizes.",
          "DESIGN.md §4 C19"),
  "C10": ("property-based testing with unique-leaf inputs: generated nested inputs x access paths (present, absent at each level, off-by-one, wrong step kind) and near-miss symbol/function tables; oracle = direct walk of the input",
